@@ -46,6 +46,7 @@ def sent_value(w, last):
 
 
 def setup(I, name, cfg=None, **kw):
+    kw.setdefault("driver", ("send", "throw", "close", "throw_genexit"))   # falsy responses: see sent_value (None for 'stage')
     b = Bisim(I, name, replay="generators.script" if cfg else None,
               cfg=dict(cfg, module=MP, ref_file=REF_FILE) if cfg else None, **kw)
     b.send_factory = sent_value
